@@ -282,7 +282,7 @@ func RunOnce(s Scenario, rep int, r *rand.Rand) (events []interface{}) {
 	case "redefine":
 		before := env.Execs
 		nf, err := b.Target.Redefine(args...)
-		rd := EvRedef{Ev: "redef", OK: err == nil, Inputs: []Label{}, Toks: []int{}, Execs: env.Execs - before}
+		rd := EvRedef{Ev: "redef", OK: err == nil, Inputs: []Label{}, Given: []Label{}, Toks: []int{}, Execs: env.Execs - before}
 		if err != nil {
 			rd.Detail = firstLine(err.Error())
 			var ua *am.ErrArgumentUnsatisfied
@@ -296,6 +296,11 @@ func RunOnce(s Scenario, rep int, r *rand.Rand) (events []interface{}) {
 		for _, v := range nf.Input().Values() {
 			l := labelOfValue(&v)
 			rd.Inputs = append(rd.Inputs, l)
+			gl := l
+			if c, ok := ifaceImpl[l.Type]; ok {
+				gl.Type = c // the API can only take the dynamic type of a supplied value
+			}
+			rd.Given = append(rd.Given, gl)
 			t := env.tok()
 			rd.Toks = append(rd.Toks, t)
 			call = append(call, apiArg(l, MkValue(l.Type, t).Interface(), r.Intn(6)))
